@@ -496,12 +496,12 @@ Proof.
 Qed.
 
 (* ---------------------------------------------------------------------------------------- *)
-(* non-vacuity: `int t = I1 + 1; REG[-10013] = t;` as a Lower.v stream, TH06 ECL pools *)
-From TV Require Import Gen.OpTable Gen.Regs.
+(* non-vacuity: `int t = I1 + 5; REG[-10013] = t;` as a Lower.v stream, TH06 ECL pools *)
+From TV Require Import Gen.OpTable Gen.Regs Proofs.RegAllocGen.
 
 Definition ex_sem_code : list L.lstmt :=
   [L.LAlloc 0 L.TInt;
-   L.LInstr 0 255 (L.IBinOp Add L.TInt (L.TVar L.TInt (L.VLoc 0)) (L.TVar L.TInt (L.VReg (-10002))) (L.TImm (VInt 1)));
+   L.LInstr 0 255 (L.IBinOp Add L.TInt (L.TVar L.TInt (L.VLoc 0)) (L.TVar L.TInt (L.VReg (-10002))) (L.TImm (VInt 5)));
    L.LInstr 0 255 (L.IAssignOp None L.TInt (L.TVar L.TInt (L.VReg (-10013))) (L.TVar L.TInt (L.VLoc 0)));
    L.LFree 0].
 
@@ -513,7 +513,7 @@ Definition ex_sem_opc (i : L.tinstr) : Z := match i with L.ICall o _ => o | _ =>
 Definition ex_sem_mem : LS.mem := LS.mkmem (fun r => VInt r) (fun _ => VInt 0).
 
 Example ex_sem_cfg_ok : cfg_ok ex_sem_cfg.
-Proof. split; apply Proofs.RegAllocGen.nodupb_NoDup; vm_compute; reflexivity. Qed.
+Proof. split; apply nodupb_NoDup; vm_compute; reflexivity. Qed.
 
 Example ex_sem_init_ok : init_ok [] ex_sem_code = true.
 Proof. reflexivity. Qed.
@@ -522,7 +522,7 @@ Proof. reflexivity. Qed.
 Example ex_sem_assigned :
   match assign_registers_l ex_sem_opc ex_sem_cfg ex_sem_code with Ok (_, out) => out | _ => [] end =
   [L.LAlloc 0 L.TInt;
-   L.LInstr 0 255 (L.IBinOp Add L.TInt (L.TVar L.TInt (L.VReg (-10001))) (L.TVar L.TInt (L.VReg (-10002))) (L.TImm (VInt 1)));
+   L.LInstr 0 255 (L.IBinOp Add L.TInt (L.TVar L.TInt (L.VReg (-10001))) (L.TVar L.TInt (L.VReg (-10002))) (L.TImm (VInt 5)));
    L.LInstr 0 255 (L.IAssignOp None L.TInt (L.TVar L.TInt (L.VReg (-10013))) (L.TVar L.TInt (L.VReg (-10001))));
    L.LFree 0].
 Proof. vm_compute. reflexivity. Qed.
@@ -536,5 +536,5 @@ Example ex_sem_runs :
       | _ => (VInt 0, VInt 0, VInt 0, VInt 0)
       end
   | _, _ => (VInt 0, VInt 0, VInt 0, VInt 0)
-  end = (VInt (-10001), VInt (-10001), VInt (-10001), VInt (-10001)).
+  end = (VInt (-9997), VInt (-9997), VInt (-10001), VInt (-9997)).
 Proof. vm_compute. reflexivity. Qed.
